@@ -4,6 +4,7 @@
 package main
 
 import (
+	"context"
 	"encoding/hex"
 	"encoding/json"
 	"flag"
@@ -200,9 +201,15 @@ var replyBodies = []string{`{"tok":"a","pay":"b"}`, `{"tok":"a"}}`, `{"tok":"a"}
 type vetoPlugin struct{}
 
 func (vetoPlugin) Name() string { return "c04-veto" }
-func (vetoPlugin) PostReadCallHeader(ctx erpc.ReadCtx) *erpc.Status { return vetoAt(ctx, "PostReadCallHeader") }
-func (vetoPlugin) PreReadCallBody(ctx erpc.ReadCtx) *erpc.Status    { return vetoAt(ctx, "PreReadCallBody") }
-func (vetoPlugin) PostReadCallBody(ctx erpc.ReadCtx) *erpc.Status   { return vetoAt(ctx, "PostReadCallBody") }
+func (vetoPlugin) PostReadCallHeader(ctx erpc.ReadCtx) *erpc.Status {
+	return vetoAt(ctx, "PostReadCallHeader")
+}
+func (vetoPlugin) PreReadCallBody(ctx erpc.ReadCtx) *erpc.Status {
+	return vetoAt(ctx, "PreReadCallBody")
+}
+func (vetoPlugin) PostReadCallBody(ctx erpc.ReadCtx) *erpc.Status {
+	return vetoAt(ctx, "PostReadCallBody")
+}
 
 func vetoAt(ctx erpc.ReadCtx, stage string) *erpc.Status {
 	v := string(ctx.PeekMeta("Veto"))
@@ -326,10 +333,10 @@ func kindsFor(t transport) []string {
 
 // keptCmd is a completed call whose command object the caller still holds.
 type keptCmd struct {
-	c                      erpc.CallCmd
-	got                    protos.Triple
+	c                     erpc.CallCmd
+	got                   protos.Triple
 	id, tname, mode, kind string
-	desc                   map[string]interface{}
+	desc                  map[string]interface{}
 }
 
 var kept []keptCmd
@@ -410,7 +417,7 @@ func main() {
 			core.Add("reconnects", 1)
 		}
 		ks := kindsFor(t)
-		modes := []string{"reply-bytes", "status", "ok", "mismatch", "panic-string", "panic-error", "panic-status", "panic-nil", "unknown-route", "bad-body", "veto", "closed"}
+		modes := []string{"reply-bytes", "status", "ok", "mismatch", "panic-string", "panic-error", "panic-status", "panic-nil", "unknown-route", "bad-body", "veto", "closed", "ctx-dead"}
 		for _, mode := range modes {
 			for k := 0; k < perMode; k++ {
 				caseNo++
@@ -503,6 +510,20 @@ func main() {
 				case "closed":
 					exp = &protos.Triple{Code: erpc.CodeConnClosed, Msg: erpc.CodeText(erpc.CodeConnClosed)}
 					expCodeMsgOnly = true
+				case "ctx-dead":
+					// the call is issued with a context that is already cancelled / past its deadline: whatever the framework
+					// does with it, the caller sees OK only if the handler ran to completion (judged by the general clause below)
+					if r.Intn(2) == 0 {
+						cctx, cancel := context.WithCancel(context.Background())
+						cancel()
+						settings = append(settings, erpc.WithContext(cctx))
+						class = "cancelled"
+					} else {
+						dctx, cancel := context.WithDeadline(context.Background(), time.Now().Add(-time.Second))
+						defer cancel()
+						settings = append(settings, erpc.WithContext(dctx))
+						class = "deadline-passed"
+					}
 				}
 				if body == nil {
 					body = tok.Build(kind, cmd.String(), "")
@@ -591,6 +612,9 @@ func main() {
 						}
 						fail(sym, fmt.Sprintf("expected %+q got %+q", *exp, got))
 					}
+				}
+				if held && mode != "reply-bytes" && c.StatusOK() && atomic.LoadInt32(&o.completed) == 0 { // (the raw-reply handler is not an observed one)
+					fail("ok-without-handler-completion", "the caller sees OK although the handler did not run to completion")
 				}
 				if mode == "bad-body" && atomic.LoadInt32(&o.entered) > 0 {
 					fail("bad-body-handler-ran", "handler invoked although the request body is not decodable")
